@@ -124,7 +124,7 @@ func c15Body(tp c15Tmpl) func(x *vs.Exec) {
 					emit(ems[0], 0, n)
 				}
 			})
-			if !s.Run() {
+			if !s.Run() && !s.Free {
 				x.Fail("deadlock", "pre-emit phase did not finish: %s", s.Deadlock)
 				return
 			}
@@ -444,6 +444,22 @@ func c15Templates(thorough bool) []c15Tmpl {
 
 func TestVerifC15(t *testing.T) {
 	tps := c15Templates(vrep.Thorough())
+	if vs.FreeMode() {
+		// free-running pass for the race detector (validates the data-race-freedom assumption of the scheduler)
+		r := vrep.New("C15", "race-pass")
+		dl := vrep.Deadline()
+		n := 0
+		for time.Now().Before(dl) {
+			for _, sc := range tps {
+				runs, _ := vs.FreeRun(t, &vs.Scenario{Name: sc.Name, Body: c15Body(sc), Opt: vs.Options{Horizon: 4 * time.Second, IdleStep: time.Second}}, 3, dl)
+				n += runs
+			}
+		}
+		r.Executions = int64(n)
+		r.Note("free-running executions: %d", n)
+		r.Flush()
+		return
+	}
 	si, sn := vrep.Shard()
 	bound := 3
 	if vrep.Thorough() {
